@@ -180,6 +180,9 @@ pub fn gen_seq(seed: u64, ncases: u64, maxlen: u64, zero_ok: bool, out: &Sink) {
         let mut total: u128 = 0; // everything ever supplied (upper bound for sums)
         for _ in 0..len {
             let live: Vec<OrderId> = lvl.iter_orders().iter().map(|o| o.id()).collect();
+            if r.chance(1, 8) {
+                out.push(format!("read {}", r.pick(&["snapshot", "package", "json", "display", "serde", "stats", "list", "agg"])));
+            }
             let choice = r.below(100);
             if choice < 38 || live.is_empty() && choice < 70 {
                 // add with an id that is not live
